@@ -12,7 +12,7 @@ CHECKS = {
    note="quick tier samples cut positions (plus full enumeration of 6 scenarios); F8-type hangs at a closed window are counted as known finding F8-C03", ref="§5 C03"),
  "C08": dict(engine="E2E", cat="exploration",
    technique="proptest-generated open/close cycles against the connection limit over a lossy simulated network, with stale-datagram replay and socket cancellation; oracle on slot reuse, end-of-task events, silence and alive-task count",
-   text="Cycles of `limit` (1..4) connections on one socket pair with max_live_vsocks = limit; every side writes a little and lets go in a generated way (drop both, shutdown then drop, reader first, wait for EOF with application patience, writer first); closing datagrams dropped/delayed/duplicated freely, dont_wait_for_lastack either way, old datagrams replayed after the end, cancellation token fired at a generated instant in 20 % of the cases. Every later cycle must be established (slots released), each connection task ends within T_end = 82 s of both halves being dropped, nothing carrying its id is emitted afterwards, at the end only dispatchers are alive; after cancel nothing is emitted, tasks are dropped promptly and no write succeeds.",
+   text="Cycles of `limit` (1..4) connections on one socket pair with max_live_vsocks = limit; every side writes a little and lets go in a generated way (drop both, shutdown then drop, reader first, wait for EOF with application patience, writer first); closing datagrams dropped/delayed/duplicated freely, dont_wait_for_lastack either way, old datagrams replayed after the end and, in 35 % of the cases, chatter while closing (10..250 replays of recent datagrams 100..950 ms apart, some aimed at one socket), cancellation token fired at a generated instant in 20 % of the cases. Every later cycle must be established (slots released), each connection task ends within T_end = 82 s of both halves being dropped, nothing carrying its id is emitted afterwards, at the end only dispatchers are alive; after cancel nothing is emitted, tasks are dropped promptly and no write succeeds.",
    note="end-of-task instants come from the cfg-guarded observer hook; T_end = inactivity (10 s) + 70 s back-off allowance + 2 s; RESET replies are not counted as emissions for the connection", ref="§5 C08"),
  "C12": dict(engine="MC", cat="exploration",
    technique="proptest-generated concurrent connect/accept workloads on 2..4 simulated sockets with a token protocol and keyed payloads; isolation/limit/id-uniqueness oracle over application results, wire log and end-of-task events",
@@ -24,38 +24,38 @@ CHECKS = {
    note="events whose order matters never share an instant (SYNs even ms, accept calls/abandonment odd ms); duplicates arrive while the original is queued or alive", ref="§5 C13"),
  "C14": dict(engine="E2E", cat="exploration",
    technique="proptest-generated link/path MTU configurations with blackhole or EMSGSIZE and fair loss; wire-log oracle on datagram sizes, probe discipline and convergence",
-   text="Generated link MTUs, true path MTUs, address families, probe retransmission limits and loss of non-probe datagrams; every datagram fits the emitter's link MTU, first transmissions above the proven size are single newest probes, data stays intact, the steady size equals the largest fitting payload within 2*ceil(log2(range))+3 probes.",
+   text="Generated link MTUs, true path MTUs, address families, probe retransmission limits and loss of non-probe datagrams, bulk writers and trickle writers (20..120 pieces around the segment sizes with pauses, so that buffered data often lies between the proven and the probed size); every datagram fits the emitter's link MTU, first transmissions above the proven size are single newest probes, data stays intact, the transfer completes; for bulk writers the steady size equals the largest fitting payload within 2*ceil(log2(range))+3 probes.",
    note="probes are exempt from random loss; asymmetric path MTUs hit known finding F21, delivered-probe/lost-ack hits F7", ref="§5 C14"),
 
  "C02": dict(engine="E2E", cat="exploration",
    technique="proptest-generated end-to-end transfers over a fair-lossy simulated network with a virtual-time deadline oracle; loss-free runs with same-instant promptness oracles",
-   text="(a) Generated bidirectional transfers under a fair-lossy fault plan (per-identity drop budget k in {1,2}, bounded delay/duplication, handshake protected): by a virtual deadline derived from the plan everything written is read, flush/shutdown resolved, nothing failed; a miss is re-run with 4x the deadline before being reported. (b) Loss-free fixed-latency runs: silent interval with undelivered bytes <= 2L+40 ms, write/shutdown on an idle connection act at the same virtual instant, no retransmission for L<=60 ms.",
+   text="(a) Generated bidirectional transfers under a fair-lossy fault plan (per-identity drop budget k in {1,2}, bounded delay/duplication, handshake protected; 30 % with a symmetric path-MTU black hole that swallows every size probe above it together with its retransmissions): by a virtual deadline derived from the plan everything written is read, flush/shutdown resolved, nothing failed; a miss is re-run with 4x the deadline before being reported. (b) Loss-free fixed-latency runs: silent interval with undelivered bytes <= 2L+40 ms, write/shutdown on an idle connection act at the same virtual instant, no retransmission for L<=60 ms.",
    note="'eventually' = before a generous virtual deadline; inactivity limit raised to 1 h in (a) (back-off ratchet vs. 10 s default noted as an observation); known findings F8 and F7 excluded by counted guards, exercised by witnesses", ref="§5 C02"),
 
  "C17": dict(engine="SP", cat="exploration",
-   technique="bounded-exhaustive enumeration of event sequences over a 24-event alphabet from 7 start states plus proptest-generated longer sequences; state-graph observer oracle on the wire log",
-   text="All sequences of peer packets / application actions / clock advances up to depth 2 (quick) or 3 (thorough, ~0.2M) from every handshake/teardown state and both handshake directions, plus generated sequences up to 20 events; an observer of docs/states.dot checks SYN-ACK form/interval/count, own FIN numbering/ordering/back-off/dueness, peer FIN honoured only in sequence and acked/answered at the same instant, RESET silence and prompt failure, silence after the end.",
-   note="the exact end of the connection task comes from the cfg-guarded observer hook; hostile 'future' acks (acknowledging unsent data) exempt the data-before-FIN clauses", ref="§5 C17"),
+   technique="bounded-exhaustive enumeration of event sequences over a 25-event alphabet from 8 start states x 2 link settings x both handshake directions plus proptest-generated longer sequences; state-graph observer oracle on the wire log",
+   text="All sequences of peer packets / application actions / clock advances up to depth 3 (quick, 0.52M sequences) or 4 (thorough, 13M) from every handshake/teardown state (incl. FinWait2 reached through a data packet that acknowledges the FIN), with and without size probing (link MTU 1500 / 576) and both handshake directions, plus generated sequences up to 20 events; an observer of docs/states.dot checks SYN-ACK form/interval/count, own FIN numbering/ordering/back-off/dueness, peer FIN honoured only in sequence and acked/answered at the same instant, RESET silence and prompt failure, silence after the end.",
+   note="the exact end of the connection task comes from the cfg-guarded observer hook; hostile 'future' acks (acknowledging unsent data) exempt the data-before-FIN clauses; FIN retransmissions that ride along with an outstanding size probe are exempt from doubling (timeouts attributed to a probe do not back off by design)", ref="§5 C17"),
 
  "C05": dict(engine="SP", cat="exploration",
    technique="proptest-generated ACK/window schedules from a scripted peer; sender reference observer evaluated at every first transmission",
-   text="Generated write patterns against generated cumulative-ACK and window schedules (grow, shrink, zero, re-open, < mss, withheld ACKs); at every first transmission: outstanding <= last window outside possible recovery, nothing new at window 0, slow-start bound before the first loss event, one segment after an RTO. Same-instant peer packets are evaluated as processed and as unprocessed.",
+   text="Generated write patterns against generated cumulative-ACK and window schedules (grow, shrink, zero, re-open, < mss, withheld ACKs) and, in a second class, honest single selective acks that never amount to a loss event (reordering); at every first transmission: outstanding <= last window outside possible recovery, nothing new at window 0, outstanding <= 2 segments + acknowledged bytes (cumulative and selective) before the first possible loss event (3 duplicates / 3 consecutive SACK packets / one SACK naming 3 packets, with one packet of margin), one segment after an RTO. Same-instant peer packets are evaluated as processed and as unprocessed; an emission at an instant at which the retransmission timer may expire (>= 200 ms since it was last armed, bytes unacknowledged) is attributed to the known timer-path finding F9.",
    note="'possible recovery' is a conservative superset; known finding F9 (timer path sends unsent segments) is counted by signature and checking continues behind it", ref="§5 C05"),
  "C06": dict(engine="SP", cat="exploration",
    technique="proptest-generated acknowledgement histories (dup/SACK/stale/silence) from a scripted peer; wire-log oracle on retransmission timing, count and content",
-   text="Generated histories incl. SACK bitmaps of 1/4/8/32 bytes, duplicates, stale and too-far acks, silences up to 140 s and canonical fast-retransmit scenarios; checks: acked/SACKed never retransmitted, stable content, timeouts not before 200 ms and doubling (2 ms tolerance), oldest segment only, transmission count bound then failure, third duplicate => retransmission at that instant.",
+   text="Generated histories incl. SACK bitmaps of 1/4/8/32 bytes, duplicates, stale and too-far acks, silences up to 140 s and canonical fast-retransmit scenarios; canonical single- and double-loss scenarios with an honest selective-ack peer; checks: acked/SACKed never retransmitted, stable content, timeouts not before 200 ms and doubling (2 ms tolerance), oldest segment only, transmission count bound then failure, third duplicate => retransmission at that instant, and in every later episode a selective ack naming >= 3 held packets => retransmission of the missing one at that instant (honest histories, no episode or timeout in progress).",
    note="only the first 64 SACK bits count (documented truncation); at most one recovery retransmission may precede a timeout chain while recovery is possible", ref="§5 C06"),
  "C18": dict(engine="SP", cat="exploration",
    technique="proptest-generated write-size/ACK-timing sequences, both Nagle settings; wire-log oracle",
-   text="Generated write sizes around the segment size with generated ACK timings; Nagle on: no sub-segment first transmission while earlier data is unacknowledged (huge-window class), held tail leaves at the instant the pipe drains; Nagle off: everything buffered leaves at the next processed event within the slow-start allowance; no byte lost.",
+   text="Generated write sizes around the segment size with generated ACK timings; Nagle on: no sub-segment first transmission while earlier data is unacknowledged (huge-window class), held tail leaves at the instant the pipe drains; Nagle off (with and without size probing): everything buffered leaves at the next processed event within the slow-start allowance, except while a real probe (larger than every acknowledged segment) is outstanding; no byte lost.",
    note="window-limited class asserts only byte conservation (pre-segmentation makes window-limited cuts visible later)", ref="§5 C18"),
  "C19": dict(engine="SP", cat="exploration",
    technique="proptest-generated ring sizes, write bursts and ACK schedules; occupancy oracle from application and wire logs",
    text="Generated initial/maximum ring sizes (incl. max < initial), writers that write as fast as allowed, ACK schedules incl. a peer that stops; bound accepted-acked <= max(initial,max) after every accepted write, parked only on a full ring, resumed by the first space-freeing ACK, errors only after the connection ended, content intact across growth.",
    note="occupancy is derived from wire acks; same-instant acks are counted both ways", ref="§5 C19"),
 
- "C01": dict(engine="E2E+COMP", cat="exploration",
-   technique="proptest-generated end-to-end transfers over a deterministic simulated lossy network; prefix and wire-content oracles against keyed payload streams; model-based component sequences",
+ "C01": dict(engine="E2E", cat="exploration",
+   technique="proptest-generated end-to-end transfers over a deterministic simulated lossy network; prefix and wire-content oracles against keyed payload streams",
    text="Two real sockets over the simulated network (paused tokio clock) with adversarial generated fault plans (loss, dup, delay > RTO, path-MTU blackhole, EMSGSIZE, cut), generated chunking/pauses/configurations; every read checked against the keyed stream the peer wrote, every ST_DATA checked against the stream at its derived offset. Sampled search; shrunk failures are replay files.",
    note="trusts tokio's paused clock/single-thread scheduling and sim::Net; known finding F7 is excluded by a counted guard and exercised by its witness", ref="§5 C01"),
  "C04": dict(engine="SP", cat="exploration",
@@ -69,7 +69,7 @@ CHECKS = {
 
  "C09": dict(engine="COMP+E2E", cat="exploration",
    technique="exhaustive enumeration of all 2^32 sequence-number pairs against true modular arithmetic; metamorphic relabelled-trace equality on generated scenarios",
-   text="(a) SeqNr difference/ordering compared with true modular distance on every one of the 2^32 pairs (complete for |d|<32768); (b) generated lossy scenarios run twice (small ISNs vs ISNs/ids that cross 65535), wire traces and application results must be equal after relabelling. (a) is exhaustive, (b) is sampled search with the wrap region over-weighted.",
+   text="(a) SeqNr difference/ordering compared with true modular distance on every one of the 2^32 pairs (complete for |d|<32768); (b) generated lossy end-to-end scenarios (up to 150/600 KB each way, adversarial fault plans, black holes) run twice (small ISNs vs generated ISNs/ids, 75 % wrapping 1..400/3000 packets into the transfer): the wire logs must be equal datagram by datagram (instant, type, window, timestamps, extensions, payload, fate) with seq/ack/id relative to each run's bases, and the applications must observe the same. (a) is exhaustive, (b) is sampled search with the wrap region over-weighted.",
    note="trusts the reference modular-distance function (unit-tested), tokio's paused clock and the simulated network for (b)", ref="§5 C09"),
  "C10": dict(engine="SP", cat="exploration",
    technique="proptest-generated hostile datagram sequences (structured, damaged encodings, raw bytes, foreign and spoofed sources) from a scripted peer in every connection state, with a concurrent legitimate connection on the same socket; crash / internal-error / buffer-bound / bystander-integrity oracle; libFuzzer targets over the same oracle and over the parsers",
@@ -77,7 +77,7 @@ CHECKS = {
    note="datagrams spoofed from the bystander's address never carry the bystander's own or next ids (that would be aimed at it); SYN floods beyond the 32-request queue are not asserted against", ref="§5 C10"),
  "C11": dict(engine="COMP", cat="exploration",
    technique="differential testing against an independent BEP-29 parser over an exhaustive shape grid plus proptest-generated byte strings; serialize/parse round-trip on generated headers; wire oracle on every emitted datagram",
-   text="Parser totality and exact acceptance decided differentially against an independently written BEP-29 parser on ~3.8M enumerated shapes (type x version x chain shape x every truncation) and generated inputs; round trip on generated header values and buffer sizes; every datagram emitted in simulator runs is parsed by the reference parser.",
+   text="Parser totality and exact acceptance decided differentially against an independently written BEP-29 parser on ~3.8M enumerated shapes (type x version x chain shape x every truncation) and generated inputs; round trip on generated header values and buffer sizes; raw byte strings; four emitter classes (lossy transfers, a socket under hostile traffic, concurrent connect/accept, overflowing listeners) in which every datagram a real socket sends must be accepted by the reference parser, carry version 1, payload exactly on data packets and the connection id owed to its direction.",
    note="trusts model::refparse (unit-tested on the repo's captured packet)", ref="§5 C11"),
  "C15": dict(engine="COMP", cat="exploration",
    technique="proptest-generated event sequences on Cubic with stated-inequality oracle after every step",
@@ -85,7 +85,7 @@ CHECKS = {
    note="MSS restricted to non-decreasing values >= 1 (all SegmentSizes can produce); violations smaller than the tolerance are invisible", ref="§5 C15"),
  "C16": dict(engine="COMP", cat="exploration",
    technique="proptest-generated sample/timeout sequences compared with an integer-nanosecond RFC 6298 reference model",
-   text="Generated sequences of RTT samples (0 ns..hours, boundary values) and timeouts; RTO, SRTT compared with an independent RFC 6298 model after every step (128 ns tolerance), bounds 200 ms..60 s, doubling, reset on sample, SRTT within sample range.",
+   text="Generated sequences of RTT samples (0 ns..hours, boundary values, steady-path runs of 4..60 nearly equal samples so that the clock-granularity floor of the variance term becomes decisive) and timeouts; RTO, SRTT compared with an independent RFC 6298 model after every step (128 ns tolerance), bounds 200 ms..60 s, doubling, reset on sample, SRTT within sample range.",
    note="trusts model::rto", ref="§5 C16"),
 }
 
